@@ -498,7 +498,17 @@ def rule_chromatwin(ctx):
     yield ob(R, fa, "melody.raw_chroma_accuracy:twin", good, why)
 
 
+def rule_edgepred(ctx):
+    """Shared with C05: the graph contains every feasible pair, so a larger feasible set can only add edges."""
+    from . import c05
+
+    for o in c05.rule_edgepred(ctx):
+        o.rule = "C07.EDGEPRED"
+        yield o
+
+
 RULES = [
+    ("C07.EDGEPRED", 4, rule_edgepred),
     ("C07.THRESH", 33, rule_thresh),
     ("C07.STRICTFLAG", 10, rule_strictflag),
     ("C07.NESTEDCONJ", 4, rule_nestedconj),
